@@ -63,6 +63,7 @@ func run(ctx *core.Ctx) error {
 	ctx.Ev.Assume("allocation is measured as the growth of /gc/heap/allocs:bytes around one serial run; wall time constants are >= 20x the worst observation on the unchanged tree with a floor of 15 s; a watchdog hit is re-run before it counts")
 	ctx.Ev.Assume("TLC evaluates Envelope.tla faithfully; the envelope constants mirror internal/limits (StreamBudget = 8 MiB + min(1024 x raw length, 256 MiB); MaxImageHeight 65536, MaxImagePixels 128 Mi)")
 	rp := &reporter{ctx: ctx, seen: map[string]bool{}}
+	defer stopWorker()
 	if err := runModels(ctx); err != nil {
 		return err
 	}
@@ -81,6 +82,7 @@ func run(ctx *core.Ctx) error {
 	cases = append(cases, mutationCases(ctx)...)
 	cases = append(cases, jbig2Cases(ctx)...)
 	cases = append(cases, globalsCases()...)
+	cases = append(cases, jpegCases(ctx)...)
 	lz := lzwStateCases(ctx)
 	lzFrom := len(cases)
 	cases = append(cases, lz...)
@@ -104,7 +106,11 @@ func run(ctx *core.Ctx) error {
 			recs[i] = Rec{Outcome: "data", RawLen: len(c.Body()), Class: c.Class, Note: "skipped after a hang in this class"}
 			continue
 		}
-		recs[i] = measure(c, keep || isLZ, c.BodyGen != "")
+		var merr error
+		recs[i], merr = measureAny(c, keep || isLZ, c.BodyGen != "")
+		if merr != nil {
+			return core.Infra("worker subprocess: %v", merr)
+		}
 		if recs[i].Outcome == "hang" {
 			hung[c.Class] = true
 		}
@@ -182,7 +188,11 @@ func run(ctx *core.Ctx) error {
 		}
 		confirm := make([]Rec, len(again))
 		for k, i := range again {
-			confirm[k] = measure(cases[i], false, true)
+			var merr error
+			confirm[k], merr = measureAny(cases[i], false, true)
+			if merr != nil {
+				return core.Infra("worker subprocess: %v", merr)
+			}
 			ctx.Ev.Eval(1)
 			if cases[i].BodyGen != "" {
 				cases[i].body = nil
